@@ -171,6 +171,34 @@ Print Assumptions C03_betdaq_complete_is_final.
 Theorem C03_betdaq_request_rejected : forall o, Betdaq.bo_status o <> SExecutable \/ Betdaq.bo_bet o = false ->
   Betdaq.bstep o Betdaq.BReqUpdate = o /\ Betdaq.bstep o Betdaq.BReqCancel = o.
 Proof. exact BetdaqP.betdaq_request_rejected. Qed.
+Print Assumptions C03_betdaq_request_rejected.
+(* (4) ... and a request that changes anything was made on an order resting Executable with an id: it moves the order to exactly the requested status
+   and registers exactly one more outstanding call of its own kind *)
+Theorem C03_betdaq_request_accepted : forall o,
+  (Betdaq.bstep o Betdaq.BReqUpdate <> o -> Betdaq.bo_status o = SExecutable /\ Betdaq.bo_bet o = true /\ Betdaq.bo_status (Betdaq.bstep o Betdaq.BReqUpdate) = SUpdating /\
+     Betdaq.bo_upd_out (Betdaq.bstep o Betdaq.BReqUpdate) = S (Betdaq.bo_upd_out o) /\ Betdaq.bo_can_out (Betdaq.bstep o Betdaq.BReqUpdate) = Betdaq.bo_can_out o) /\
+  (Betdaq.bstep o Betdaq.BReqCancel <> o -> Betdaq.bo_status o = SExecutable /\ Betdaq.bo_bet o = true /\ Betdaq.bo_status (Betdaq.bstep o Betdaq.BReqCancel) = SCancelling /\
+     Betdaq.bo_can_out (Betdaq.bstep o Betdaq.BReqCancel) = S (Betdaq.bo_can_out o) /\ Betdaq.bo_upd_out (Betdaq.bstep o Betdaq.BReqCancel) = Betdaq.bo_upd_out o).
+Proof. exact BetdaqP.betdaq_request_accepted. Qed.
+Print Assumptions C03_betdaq_request_accepted.
+(* (5) the status log is a history: whatever arrives later only appends to it (at most one entry per event), nothing already logged is rewritten *)
+Theorem C03_betdaq_log_append_only : forall es1 es2,
+  exists l, Betdaq.bo_log (Betdaq.brun (es1 ++ es2)) = Betdaq.bo_log (Betdaq.brun es1) ++ l /\ (length l <= length es2)%nat.
+Proof. exact BetdaqP.betdaq_log_append_only. Qed.
+Print Assumptions C03_betdaq_log_append_only.
+(* (6) while the placement is unanswered the order rests Pending, without an id, with nothing else in flight - in every reachable state *)
+Theorem C03_betdaq_unanswered_placement_is_pending : forall es, Betdaq.bo_place_out (Betdaq.brun es) = true ->
+  Betdaq.bo_status (Betdaq.brun es) = SPending /\ Betdaq.bo_bet (Betdaq.brun es) = false /\ Betdaq.bo_upd_out (Betdaq.brun es) = O /\ Betdaq.bo_can_out (Betdaq.brun es) = O.
+Proof. exact BetdaqP.betdaq_unanswered_placement_is_pending. Qed.
+Print Assumptions C03_betdaq_unanswered_placement_is_pending.
+(* (7) the id the exchange gave the order is never lost again *)
+Theorem C03_betdaq_bet_id_kept : forall es1 es2, Betdaq.bo_bet (Betdaq.brun es1) = true -> Betdaq.bo_bet (Betdaq.brun (es1 ++ es2)) = true.
+Proof. exact BetdaqP.betdaq_bet_id_kept. Qed.
+Print Assumptions C03_betdaq_bet_id_kept.
+Example C03_betdaq_example2 :
+  let o := Betdaq.brun [Betdaq.BPoll false true; Betdaq.BReqCancel] in Betdaq.bo_place_out o = true /\ Betdaq.bo_log o = [SPending] /\
+  Betdaq.bstep (Betdaq.brun [Betdaq.BReceipt true]) Betdaq.BReqCancel <> Betdaq.brun [Betdaq.BReceipt true] /\ Betdaq.bo_bet (Betdaq.brun [Betdaq.BReceipt true]) = true.
+Proof. cbn. repeat split; try reflexivity. discriminate. Qed.
 Example C03_betdaq_example :
   Betdaq.bo_log (Betdaq.brun [Betdaq.BReceipt true; Betdaq.BReqUpdate; Betdaq.BPoll true true; Betdaq.BUpdateAnswer true; Betdaq.BReqCancel]) = [SPending; SExecutable; SUpdating; SExecComplete].
 Proof. reflexivity. Qed.
